@@ -13,9 +13,13 @@ from .tlcrun import run_tlc
 WIRE_INVARIANTS = ["TypeOK", "SchemaLegal", "AlignedEmit", "ZeroFillForward", "Mirror", "FixedLength", "Dump"]
 
 
-def consts(inner, max_members, max_types=1, max_len=2, widths="{1, 2, 4, 8}", fixn=2, limn=2):
+SCALARS = {"u": "<- ScalarsU", "u18": "<- ScalarsU18", "all": "<- ScalarsAll"}
+
+
+def consts(inner, max_members, max_types=1, max_len=2, widths="u", fixn=2, limn=2, high=False, forms="FormsAll"):
     return {"Inner": "<- " + inner, "MaxLen": max_len, "MaxMembers": max_members, "MaxTypes": max_types,
-            "Widths": widths, "FixN": fixn, "LimN": limn}
+            "Forms": "<- " + forms,
+            "Scalars": SCALARS.get(widths, widths), "PayloadHigh": "TRUE" if high else "FALSE", "FixN": fixn, "LimN": limn}
 
 
 class VectorSet:
@@ -44,16 +48,43 @@ def generate(tier, want_sim=True, light=False):
     if tier == "quick" and light:
         runs = [("InnerSmall", consts("InnerSmall", 2, max_len=1), None),
                 ("InnerDef", consts("InnerDef", 1), None),
-                ("InnerDef", consts("InnerDef", 4, max_types=2, max_len=2), 40)]
+                ("InnerSmall", consts("InnerSmall", 1, widths="all", high=True), None),
+                ("InnerDef", consts("InnerDef", 2, forms="FormsPlain", max_len=1), None),
+                ("InnerDef", consts("InnerDef", 4, max_types=2, max_len=2, widths="all", high=(sd % 2 == 0)), 40)]
     elif tier == "quick":
         runs = [("InnerSmall", consts("InnerSmall", 2), None),
-                ("InnerDef", consts("InnerDef", 1), None)]
+                ("InnerDef", consts("InnerDef", 1), None),
+                ("InnerSmall", consts("InnerSmall", 1, widths="all", high=True), None),
+                ("InnerDef", consts("InnerDef", 2, forms="FormsPlain", max_len=1), None)]
         if want_sim:
-            runs.append(("InnerDef", consts("InnerDef", 4, max_types=2, max_len=3), 150))
+            runs.append(("InnerDef", consts("InnerDef", 4, max_types=2, max_len=3, widths="all", high=(sd % 2 == 0)), 150))
     else:
-        runs = [("InnerDef", consts("InnerDef", 2), None)]
+        runs = [("InnerDef", consts("InnerDef", 2), None),
+                ("InnerSmall", consts("InnerSmall", 2, widths="all", high=True, max_len=1), None)]
         if want_sim:
-            runs.append(("InnerDef", consts("InnerDef", 5, max_types=3, max_len=3), 3000))
+            runs.append(("InnerDef", consts("InnerDef", 5, max_types=3, max_len=3, widths="all"), 3000))
+            runs.append(("InnerDef", consts("InnerDef", 5, max_types=3, max_len=3, widths="all", high=True), 3000))
+    for inner, c, sim in runs:
+        res = run_tlc("WireMC", c, invariants=WIRE_INVARIANTS, prefix=("VEC", "INNER"),
+                      simulate=sim, depth=400, seed=sd)
+        vs.add_run(inner, res)
+    return vs
+
+
+def generate_layouts(tier):
+    """Schemas only (MaxLen = 0: every array empty): many more and larger
+    schemas per second - for the checks that look at layout, not at values."""
+    vs = VectorSet()
+    sd = seed()
+    if tier == "quick":
+        runs = [("InnerSmall", consts("InnerSmall", 2, max_len=0), None),
+                ("InnerDef", consts("InnerDef", 1, max_len=0), None),
+                ("InnerDef", consts("InnerDef", 2, forms="FormsPlainOpt", max_len=0), None),
+                ("InnerDef", consts("InnerDef", 3, max_types=1, max_len=0, widths="all"), 500)]
+    else:
+        runs = [("InnerDef", consts("InnerDef", 2, max_len=0), None),
+                ("InnerSmall", consts("InnerSmall", 3, max_len=0, widths="u18"), None),
+                ("InnerDef", consts("InnerDef", 4, max_types=2, max_len=0, widths="all"), 6000)]
     for inner, c, sim in runs:
         res = run_tlc("WireMC", c, invariants=WIRE_INVARIANTS, prefix=("VEC", "INNER"),
                       simulate=sim, depth=400, seed=sd)
@@ -153,7 +184,7 @@ def generate_faults(tier):
         runs = [("InnerSmall", dconsts("InnerSmall", 1, ALL_FAULTS, "L", max_len=2), None),
                 ("InnerDef", dconsts("InnerDef", 3, ALL_FAULTS, "LB", max_types=2, max_len=2), 60)]
     else:
-        runs = [("InnerSmall", dconsts("InnerSmall", 2, ALL_FAULTS, "L", max_len=1, widths="{1, 8}"), None),
+        runs = [("InnerSmall", dconsts("InnerSmall", 2, ALL_FAULTS, "L", max_len=1, widths="u18"), None),
                 ("InnerDef", dconsts("InnerDef", 1, ALL_FAULTS, "LB", max_len=2), None),
                 ("InnerDef", dconsts("InnerDef", 4, ALL_FAULTS, "LB", max_types=3, max_len=3), 2500)]
     for inner, c, sim in runs:
@@ -175,7 +206,7 @@ def vacuity_guard():
     """The round-trip theorem WITHOUT the documented greedy-tail restriction
     must fail in the specification; otherwise the restriction (and with it the
     C02 check) is vacuous."""
-    c = dconsts("InnerSmall", 2, ("none",), "L", max_len=1, widths="{1, 8}")
+    c = dconsts("InnerSmall", 2, ("none",), "L", max_len=1, widths="u18")
     res = run_tlc("WireDecMC", c, invariants=["RoundTripUnrestricted"], spec="DSpec", expect_violation=True)
     if res.ok or "RoundTripUnrestricted is violated" not in (res.error or ""):
         raise MachineryError("vacuity guard: TLC did not rediscover the documented greedy-tail exception: %s"
@@ -186,8 +217,8 @@ def vacuity_guard():
 # ---------------------------------------------------------------------------
 # given schemas (spec/WireGiven.tla): generation and trace validation
 # ---------------------------------------------------------------------------
-GIVEN_CONSTS = {"Inner": "<- NoInner", "MaxLen": 2, "MaxMembers": 0, "MaxTypes": 0, "Widths": "{}",
-                "FixN": 0, "LimN": 0}
+GIVEN_CONSTS = {"Inner": "<- NoInner", "MaxLen": 2, "MaxMembers": 0, "MaxTypes": 0, "Scalars": "{}", "Forms": "{}",
+                "PayloadHigh": "FALSE", "FixN": 0, "LimN": 0}
 
 
 def _write_given(items):
@@ -273,11 +304,11 @@ PRINT_INTS = [0, 7, 10, 255, 256, 4660, 65535, 1000000, 2147483647]
 PRINT_BYTES = [97, 0, 9, 10, 13, 92, 32, 126, 127, 255, 34, 65]
 
 
-def repayload_for_print(env, t, walk):
+def repayload_for_print(env, t, walk, salt=0):
     """Replace scalar payloads by values the Print specification can render
     in decimal (TLC integers are 32 bit) and bytes of every escape class."""
     value = S.walk_to_value(env, t, walk)
-    counter = [0]
+    counter = [salt]
 
     def scal(b):
         counter[0] += 1
